@@ -430,7 +430,9 @@ func topicHistory(r *spec.Rand, idx int) {
 				for kk := range model {
 					keys = append(keys, kk)
 				}
-				sort.Slice(keys, func(a, b int) bool { return keys[a].sub < keys[b].sub || keys[a].sub == keys[b].sub && keys[a].filter < keys[b].filter })
+				sort.Slice(keys, func(a, b int) bool {
+					return keys[a].sub < keys[b].sub || keys[a].sub == keys[b].sub && keys[a].filter < keys[b].filter
+				})
 				f, s = keys[k].filter, keys[k].sub
 			}
 			ops = append(ops, fmt.Sprintf("unsub(%d,%q)", s, f))
